@@ -1,0 +1,42 @@
+//go:build verif
+
+// Contracts for package analysis (compiled only with -tags=verif; checked by /verif/bin/govc). Property C11.
+package analysis
+
+// "nested directories, a file inside a directory output": containment is decided at path-component boundaries
+//@ func pathWithin(path, dir) (r)
+//@   pure
+//@   ensures [iff_component_prefix] r <==> path == dir || hasPrefix(path, dir + "/")
+
+//@ func pathsOverlap(a, b) (r)
+//@   pure
+//@   ensures [either_direction] r <==> a == b || hasPrefix(a, b + "/") || hasPrefix(b, a + "/")
+
+// "an input escaping its package": the cleaned path is ".." or starts with "../"
+//@ func pathTriesToEscape(relPath) (r)
+//@   pure
+//@   ensures [iff_dotdot] r <==> cleanPath(relPath) == ".." || hasPrefix(cleanPath(relPath), "../")
+
+//@ func checkInputPathsRelative(target) (errs)
+//@   pure
+//@   ensures [error_iff_bad_input] len(errs) == 0 <==> (forall j int :: {target.Inputs[j]} 0 <= j && j < len(target.Inputs) ==>
+//@        !hasPrefix(target.Inputs[j], "/") && !(cleanPath(target.Inputs[j]) == ".." || hasPrefix(cleanPath(target.Inputs[j]), "../")))
+//@ loop #1
+//@   invariant [so_far] len(errs) >= 0 && (len(errs) == 0 <==> (forall j int :: {target.Inputs[j]} 0 <= j && j <= rangeindex ==>
+//@        !hasPrefix(target.Inputs[j], "/") && !(cleanPath(target.Inputs[j]) == ".." || hasPrefix(cleanPath(target.Inputs[j]), "../"))))
+
+// C11: "a dependency on an undefined label", "self-reference": rejected; otherwise every declared dependency becomes an
+// edge in both edge maps.
+//@ func BuildGraph(nodes) (g, err)
+//@   requires [wf] nodeMapWF(nodes)
+//@   ensures [undefined_dependency_rejected] err == nil ==> (forall k label.TargetLabel, j int :: {select(arr(depLabels(select(vals(nodes), k))), j)}
+//@        has(nodes, k) && 0 <= j && j < len(depLabels(select(vals(nodes), k))) ==> has(nodes, depLabels(select(vals(nodes), k))[j]))
+//@   ensures [self_dependency_rejected] err == nil ==> (forall k label.TargetLabel, j int :: {select(arr(depLabels(select(vals(nodes), k))), j)}
+//@        has(nodes, k) && 0 <= j && j < len(depLabels(select(vals(nodes), k))) ==> depLabels(select(vals(nodes), k))[j] != k)
+//@ loop #1
+//@   invariant [seen_ok] forall k label.TargetLabel, j int :: {select(arr(depLabels(select(vals(nodes), k))), j)}
+//@        seen(k) && has(nodes, k) && 0 <= j && j < len(depLabels(select(vals(nodes), k))) ==> has(nodes, depLabels(select(vals(nodes), k))[j]) && depLabels(select(vals(nodes), k))[j] != k
+//@   invariant [graph_maps] graph.outEdges != nil && graph.inEdges != nil && graph.outEdges != graph.inEdges && graph.nodes == nodes
+//@ loop #2
+//@   invariant [so_far] forall j int :: {ranged()[j]} 0 <= j && j <= rangeindex ==> has(nodes, ranged()[j]) && ranged()[j] != labelOf(node)
+//@   invariant [graph_maps] graph.outEdges != nil && graph.inEdges != nil && graph.outEdges != graph.inEdges && graph.nodes == nodes
